@@ -6,6 +6,7 @@ from prettytable import MARKDOWN, PrettyTable
 from pydantic import Field, validate_call
 
 from primaite.simulator.core import RequestManager, RequestType
+from primaite.simulator.network.hardware.node_operating_state import NodeOperatingState
 from primaite.simulator.network.hardware.nodes.network.router import (
     AccessControlList,
     ACLAction,
@@ -142,7 +143,9 @@ class Firewall(Router, discriminator="firewall"):
 
         self.external_outbound_acl.sys_log = kwargs["sys_log"]
         self.external_outbound_acl.name = f"{kwargs['config'].hostname} - External Outbound"
-        self.power_on()
+        # a firewall the scenario declares as not ON stays in its declared state
+        if self.operating_state == NodeOperatingState.ON:
+            self.power_on()
 
     def _init_request_manager(self) -> RequestManager:
         """
